@@ -68,6 +68,48 @@ def impl_functions(_: dict) -> dict:
             if not same or r2 is not r1:
                 problems.append({"what": "the body saw different arguments / returned object differs", "params": params, "call": call,
                                  "plain": {k: repr(v)[:40] for k, v in s1.items()}, "checked": {k: repr(v)[:40] for k, v in s2.items()}})
+    # the decorated object may itself be a wrapper whose real calling convention is (*args, **kwargs) (functools.wraps, caches,
+    # dispatchers): it must receive the call as the caller wrote it - same positional count, same keywords, no defaults filled in
+    import functools
+
+    for params, calls in SIGS[:5] + SIGS[6:7]:
+        ns = dict(base)
+        ns["CALLS"] = []
+        ns["functools"] = functools
+        src = (f"def body({params}) -> A:\n    return X\n"
+               "def spy(fn):\n    @functools.wraps(fn)\n    def w(*a, **k):\n        CALLS.append((a, dict(k)))\n        return fn(*a, **k)\n    return w\n"
+               "plain = spy(body)\nchecked = dltype.dltyped()(spy(body))\n")
+        exec(compile(src, "<c16>", "exec", dont_inherit=True), ns)  # noqa: S102
+        for call in calls:
+            n += 1
+            ns["CALLS"].clear()
+            try:
+                eval("plain" + call, ns)  # noqa: S307
+                eval("checked" + call, ns)  # noqa: S307
+            except BaseException as e:  # noqa: BLE001
+                problems.append({"what": f"call through a wrapped callable raised {type(e).__name__}: {e}", "params": params, "call": call})
+                continue
+            (a1, k1), (a2, k2) = ns["CALLS"]
+            if len(a1) != len(a2) or any(u is not v and not (u == v and not hasattr(u, "shape")) for u, v in zip(a1, a2)) or list(k1) != list(k2) or any(
+                    k1[q] is not k2[q] and not (k1[q] == k2[q] and not hasattr(k1[q], "shape")) for q in k1):
+                problems.append({"what": "a wrapped callable received the call in another form than the caller wrote it (positional / keyword / defaults)",
+                                 "params": params, "call": call, "undecorated": f"{len(a1)} positional, keywords {list(k1)}",
+                                 "decorated": f"{len(a2)} positional, keywords {list(k2)}"})
+    # a default that violates its annotation is rejected like a passed value, before the body
+    n += 1
+    ns = dict(base)
+    ns["SEEN"] = []
+    ns["BAD_Y"] = np.zeros((4,), dtype=np.int32)
+    exec(compile("@dltype.dltyped()\ndef checked(x: A, y: B = BAD_Y) -> A:\n    SEEN.append(1)\n    return X\n", "<c16>", "exec", dont_inherit=True), ns)  # noqa: S102
+    try:
+        ns["checked"](X)
+        problems.append({"what": "a default value that violates its annotation was not checked like a passed one"})
+    except dltype.DLTypeError:
+        if ns["SEEN"]:
+            problems.append({"what": "the body ran before a violating default was rejected"})
+    except BaseException as e:  # noqa: BLE001
+        problems.append({"what": f"violating default: {type(e).__name__} instead of a DLTypeError"})
+
     # exceptions propagate unchanged
     class Boom(Exception):
         pass
@@ -225,7 +267,7 @@ def impl_classes(_: dict) -> dict:
 
 def run(tier: str, seed: int, rep: Report, model: Model) -> dict:
     rep.rule = ("7 signature shapes (positional-only, keyword-only, defaults incl. unhashable, *args, **kwargs) x their call styles, exception "
-                "identity, method kinds; NamedTuple and 7 dataclass option sets: fields, equality, repr, isinstance, immutability, pickling, "
+                "identity, method kinds, forwarding to wrapped (*args, **kwargs) callables, violating defaults; NamedTuple and 7 dataclass option sets: fields, equality, repr, isinstance, immutability, pickling, "
                 "replace; compared with undecorated twins; distinct = distinct observation; all non-trivial")
     rep.notes.append("partial: the object-model comparisons are tests against undecorated twins, not theorems")
     worker = ImplWorker("harness.props.c16")
